@@ -112,13 +112,20 @@ BUILTIN_ARGS = {
     'oct': '(8)', 'open': "('f.txt')", 'ord': "('a')", 'pow': '(2, 3)', 'print': "('x', 1, sep='-')", 'range': '(1, 10, 2)', 'repr': '([1])', 'reversed': '([1, 2])', 'round': '(2.567, 1)',
     'set': '([1, 1])', 'slice': '(1, 2)', 'sorted': '([3, 1, 2])', 'str': '(12)', 'sum': '([1, 2])', 'tuple': '([1, 2])', 'type': '(1)', 'vars': '()', 'zip': "([1], ['a'])",
     'locals': '()', 'globals': '()', 'memoryview': None, 'anext': None, 'aiter': None, 'breakpoint': None, 'help': None, 'exit': None, 'quit': None, 'copyright': None, 'credits': None, 'license': None,
-    'compile': "('1', 'f', 'eval')", 'eval': "('1 + 1')", 'exec': "('x = 1')", 'delattr': None, 'setattr': None, 'classmethod': None, 'staticmethod': None, 'property': None, 'super': None, '__import__': None,
+    'compile': "('1', 'f', 'eval')", 'eval': "('1 + 1')", 'exec': "('x = 1')", 'delattr': None, 'setattr': None, 'classmethod': None, 'staticmethod': None, 'property': None, 'super': None, '__import__': "('math')",
     '__build_class__': None,
 }
 
 
 # introductory programs with the usual beginner mistakes and with type annotations: all must be analysed to completion
 INTRO_PROGRAMS = {
+    # dictionaries whose values (or keys) are of several kinds, walked through every view
+    'dict:mixed-values-items-nested-loop': 'd = {"a": 1, "b": [1]}\nfor k, v in d.items():\n    for q in v:\n        print(k, q)\n',
+    'dict:mixed-values-values-nested-loop': 'd = {"a": 1, "b": [1]}\nfor v in d.values():\n    for q in v:\n        print(q)\n',
+    'dict:mixed-keys-keys-nested-loop': 'd = {"a": 1, 2: [1]}\nfor k in d.keys():\n    for q in k:\n        print(q)\n',
+    'dict:mixed-values-items-used': 'd = {"a": 1, "b": "x"}\nfor k, v in d.items():\n    print(k, v)\ntotal = 0\nfor v in d.values():\n    total = total + len(str(v))\nprint(total)\n',
+    'dict:mixed-values-list-of-items': 'd = {"name": "Ada", "age": 36, "tags": ["x"]}\npairs = list(d.items())\nfirst = pairs[0]\nprint(first, len(d.keys()), sorted(d.keys()))\n',
+    'dict:built-up-mixed-values': 'd = {}\nd["a"] = 1\nd["b"] = "two"\nd["c"] = [3]\nfor k, v in d.items():\n    print(k, v)\nfor v in d.values():\n    print(v)\n',
     'stub:function-body-ellipsis': "def todo():\n    ...\ntodo()\n", 'stub:class-body-ellipsis': "class Shape:\n    ...\nprint(Shape())\n",
     'stub:if-body-ellipsis': "x = 1\nif x:\n    ...\nelse:\n    print(x)\n", 'stub:ellipsis-value': "later = ...\nprint(later)\n",
     'mistake:call-a-number': "width = 3\narea = 2(width + 4)\nprint(area)\n",
